@@ -203,3 +203,26 @@ for D in (2, 3):
               tier='quick' if (D == 2 or not based) else 'thorough',
               assigns=['*self'], objbits=12, timeout=1200, unwind=4, cbmc_flags=['--no-pointer-check'],
               bounded='every operand of a multiplication or division |x| < 16 (extents, index bases, strides); arithmetic bit-precise within that bound')
+
+# ---------------------------------------------------------------------------------------------------------------------
+# reshape(x) (same element count: the flat element sequence is kept because neither the storage nor its order is touched) and clear()
+for D in (1, 2, 3):
+    na = ['g_n%d' % k for k in range(D)]; fa = ['g_f%d' % k for k in range(D)]; xs = ['x%d' % k for k in range(D)]
+    Na, Nx = prod(na), prod(xs)
+    bnds = ' && '.join('0 <= %s && %s < SMALL && INR(%s) && 0 <= %s && %s < SMALL' % (n, n, f, x, x) for n, f, x in zip(na, fa, xs))
+    Check('O%d_reshape' % D, ['C06'], 'own', fn='w_O%d_reshape' % D, params=['self'] + xs,
+          wrapper=('void', 'AR<%d>* self, %s' % (D, ', '.join('long %s' % x for x in xs)), 'self->reshape({%s});' % ', '.join(xs)),
+          cxx={'self': ARR(D)}, ghosts=ghosts_fn(D), stubs=[NEW, DEL], mode='uf',
+          requires=[bnds, is_canonical('self', D, na, fa), 'INOFF(%s) && INOFF(%s)' % (Na, Nx), 'self->base_ != 0 && g_block != 0', '%s == %s   /* documented precondition of reshape: same number of elements */' % (Na, Nx)],
+          lemmas=prod_lemmas(na, fa) + prod_lemmas(xs, ['0']*D),
+          ensures=canonical_ens('self', D, xs, ['0']*D, lambda k: '%s == 0' % prod(xs[k:]), guard='EXC == 0', what='the reshaped array') + [
+                   ('the storage is kept as it is: same base, no allocation, no release (so the flat element sequence is preserved)', 'EXC == 0 && self->base_ == OLD(self->base_) && g_news == 0 && g_deletes == 0')],
+          covers=['g_n0 > 1 && x0 != g_n0', '%s == 0' % Na], assigns=['*self'], objbits=12, timeout=900, unwind=4, cbmc_flags=['--no-pointer-check'], solvers=('cvc5', 'cadical'))
+    Check('O%d_clear' % D, ['C06'], 'own', fn='w_O%d_clear' % D, params=['self'],
+          wrapper=('void', 'AR<%d>* self' % D, 'self->clear();'),
+          cxx={'self': ARR(D)}, ghosts=ghosts_fn(D), stubs=[NEW, DEL], mode='uf',
+          requires=[' && '.join('0 <= %s && %s < SMALL && INR(%s)' % (n, n, f) for n, f in zip(na, fa)), is_canonical('self', D, na, fa), 'INOFF(%s)' % Na, 'self->base_ != 0 && g_block != 0'],
+          lemmas=prod_lemmas(na, fa),
+          ensures=[('clear() leaves an empty array with the layout of empty extensions', 'EXC == 0 && ' + ' && '.join(canonical('self', D, ['0']*D, ['0']*D))),
+                   ('the storage is released exactly once (if there was any); nothing is allocated', 'g_news == 0 && (%s == 0 ? g_deletes == 0 : (g_deletes == 1 && g_deleted == (void*)OLD(self->base_)))' % Na)],
+          covers=['g_n0 > 1', '%s == 0' % Na], assigns=['*self'], objbits=12, timeout=900, unwind=4, cbmc_flags=['--no-pointer-check'], solvers=('cvc5', 'cadical'))
